@@ -1,0 +1,25 @@
+//go:build !verif
+
+package icmp_spoofer
+
+import (
+	"time"
+
+	"github.com/irai/packet"
+)
+
+// No-op counterparts of the verification hooks (see verif_on.go); inlined away.
+
+func verifEmit(ev string, kv ...interface{}) {}
+
+func verifGate(name string, loop int) {}
+
+func verifWake(loop int) <-chan time.Time { return nil }
+
+func verifLoopStart(addr packet.Addr) int { return 0 }
+
+func verifLoopDone(loop int) {}
+
+func verifStop(h *Handler6, addr packet.Addr) {}
+
+func verifCheck(h *Handler6, loop int, dst packet.Addr) {}
